@@ -50,13 +50,14 @@ SweepStep(e) ==
         box  == IF IsDim(st, n) THEN Box(Lo(st.base), st.dims[n]) ELSE {}
         I    == 1..Len(e.cells)
         seen == {e.cells[i][1] : i \in I}
-        bad  == {i \in I : e.cells[i][1] \in box /\ st.val[n][e.cells[i][1]] # e.cells[i][2]}
+        at(t) == IF t \in DOMAIN st.val[n] THEN st.val[n][t] ELSE -1
+        bad  == {i \in I : e.cells[i][1] \in box /\ at(e.cells[i][1]) # e.cells[i][2]}
         v    == IF e.full /\ seen # box THEN "elements_are_not_exactly_the_declared_bounds"
                 ELSE IF ~(seen \subseteq box) THEN "element_outside_declared_bounds_readable"
                 ELSE IF bad # {} THEN "element_does_not_hold_its_own_value"
                 ELSE "ok"
         obsv == [t \in box |-> IF \E i \in I : e.cells[i][1] = t
-                               THEN e.cells[CHOOSE i \in I : e.cells[i][1] = t][2] ELSE st.val[n][t]]
+                               THEN e.cells[CHOOSE i \in I : e.cells[i][1] = t][2] ELSE at(t)]
     IN  /\ st' = IF bad = {} THEN st ELSE [st EXCEPT !.val[n] = obsv]
         /\ viol' = IF v = "ok" THEN viol ELSE Append(viol, <<l, v>>)
 
